@@ -44,6 +44,7 @@ REQUIRED_REACH = [
     "probe:execution_repeated_in_same_process",
     "probe:derived_failure_after_valid_original_in_same_process",
     "probe:derived_failure_alone",
+    "probe:error_under_deep_nesting",
     "probe:failing_source_with_unusual_format_value",
     "probe:run_in_fresh_interpreter_with_flags:-O",
 ]
@@ -107,6 +108,11 @@ ERROR_CLASSES: dict[str, dict[str, Any]] = {
     # one macro body, applied first with an operand the opcode can encode and then with one it cannot
     "macro_operand_too_wide_on_second_application": {"scope": "asm", "text": ".macro ldi_zq(v_zq) {\n    ldx v_zq\n}\nldi_zq(0x12)\nldi_zq(0x123456)"},
     "macro_immediate_too_wide_on_second_application": {"scope": "asm", "text": ".macro ldm_zq(w_zq) {\n    lda #w_zq\n    .db w_zq\n}\nldm_zq(0x12)\nldm_zq(0x1234)\nldm_zq(0x123456)"},
+    # an operand after an instruction that takes none (the accumulator spelling 'a' is only meaningful
+    # after asl/lsr/rol/ror/inc/dec, and this assembler does not have it at all)
+    "operand_after_implied_opcode": {"scope": "asm", "text": "rts a"},
+    "operand_after_implied_opcode_upper": {"scope": "asm", "text": "clc A ; carry"},
+    "number_after_implied_opcode": {"scope": "asm", "text": "pha 0x10"},
     "unsupported_addressing_mode": {"scope": "asm", "text": "nop #0"},
     "index_after_immediate": {"scope": "asm", "text": "lda #0x10,x"},
     "index_after_immediate_y": {"scope": "asm", "text": "cpx #0x02,y"},
@@ -261,7 +267,12 @@ def build_files(case: dict[str, Any]) -> tuple[progen.Prog, dict[str, bytes], di
     prog = progen.Prog.from_record(case["prog"])
     ins = case.get("insert")
     if ins is not None:
-        prog = progen.insert_at(prog, ins["slot"], error_node(ins["class"], prog, ins.get("addr")))
+        node = error_node(ins["class"], prog, ins.get("addr"))
+        if ins.get("nest"):
+            # the same error at the bottom of many nested blocks
+            n = int(ins["nest"])
+            node = {"k": "error", "t": "{\n" * n + node["t"] + "\n" + "}\n" * n}
+        prog = progen.insert_at(prog, ins["slot"], node)
     return prog, prog.all_files(), out_roles(prog.all_roles())
 
 
@@ -330,6 +341,8 @@ def run_single(case: dict[str, Any], stats: Stats) -> list[Violation]:
     bad = inserted or fired or not twin_ok
     # reach statistics
     ctx = case["insert"]["slot"]["ctx"] if inserted else "-"
+    if inserted and case["insert"].get("nest"):
+        stats.bump("probe:error_under_deep_nesting")
     if inserted:
         if ctx == "macro_def":
             stats.bump("probe:error_in_macro_body")
@@ -509,6 +522,14 @@ def sub_cases(case: dict[str, Any], stats: Stats) -> Iterator[dict[str, Any]]:
             others = keep + rest[: max(0, SLOTS_PER_CLASS - len(keep))]
         for s in others:
             yield dict(base, spec=specs[rng.choice(ENTRIES)], insert={"class": klass, "slot": s}, knobs=benign_knobs(krng) if rng.random() < 0.3 else {}, repeat=rng.random() < 0.15)
+    # (2a) the same errors at the bottom of deep block nesting (65, 150 levels)
+    nestable = [k for k in ERROR_CLASSES if not ERROR_CLASSES[k].get("c19_only") and not ERROR_CLASSES[k].get("top_only") and not ERROR_CLASSES[k].get("last_only") and k not in ("too_few_macro_args", "undefined_macro_argument", "undefined_macro_argument_unused", "macro_operand_too_wide_on_second_application", "macro_immediate_too_wide_on_second_application", "unclosed_brace", "unclosed_macro", "stray_closing_brace", "unmapped_bank", "branch_out_of_range", "branch_plus_128", "branch_minus_129")]
+    top_slots = [s for s in slots if s["ctx"] in ("top", "included_file") and s["assembled"]]
+    if top_slots:
+        for klass in rng.sample(nestable, 6 if case.get("tier") != "thorough" else 20):
+            if klass in ("run_off_mapped_rom", "address_beyond_24_bits", "branch_64k_away") and "map" in prog.features:
+                continue
+            yield dict(base, spec=specs[rng.choice(ENTRIES)], insert={"class": klass, "slot": rng.choice(top_slots), "nest": rng.choice([65, 70, 150])}, knobs={})
     # (2b) failures derived from the valid program itself: one statement of main.s removed
     defs: list[int] = []
     rest: list[int] = []
